@@ -35,12 +35,18 @@ from typing import Dict, List, Optional, Set, Tuple
 from .inline import INVENTORY, Def, enumerate_defs
 
 
+_SOURCES: Optional[Dict[str, dict]] = None
+
+
 def load_sources() -> Dict[str, dict]:
-    try:
-        with open(INVENTORY) as fh:
-            return json.load(fh).get("sources", {})
-    except (OSError, ValueError):
-        return {}
+    global _SOURCES
+    if _SOURCES is None:
+        try:
+            with open(INVENTORY) as fh:
+                _SOURCES = json.load(fh).get("sources", {})
+        except (OSError, ValueError):
+            _SOURCES = {}
+    return _SOURCES
 
 
 def _strip_doc(body: List[ast.stmt]) -> List[ast.stmt]:
@@ -960,3 +966,49 @@ def restore_signatures(pkg, sources: Dict[str, dict]) -> None:
             changed = True
     if changed:
         _refresh(pkg)
+
+
+# =====================================================================================================================
+# nested functions under a new name
+# =====================================================================================================================
+
+def restore_nested_names(m, sources: Dict[str, dict]) -> None:
+    """a nested function of the reference tree that is gone while its enclosing function holds a new nested function whose body unifies with it:
+    the reference name is put back (definition and every use inside the enclosing function)"""
+    have = {d.qual: d for d in m.defs}
+    changed = False
+    for qual, entry in sources.items():
+        if not qual.startswith(m.modname + ":") or ".<locals>." not in qual or qual in have:
+            continue
+        outer_q, name = qual.rsplit(".<locals>.", 1)
+        outer = have.get(outer_q)
+        kfn = _parse_src(entry)
+        if outer is None or kfn is None:
+            continue
+        cands = []
+        for d in m.defs:
+            if d.kind != "nested" or d.parent is not outer or d.qual in sources or type(d.node) is not type(kfn):
+                continue
+            kbody, nbody = _strip_doc(kfn.body), _strip_doc(d.node.body)
+            if _shape(kbody) != _shape(nbody) or _sig_key(kfn) != _sig_key(d.node):
+                continue
+            u = Unifier(kfn, False, "func", nname=d.node.name, nparams=_params(d.node), nlocals=_stored(d.node))
+            u.nfn = d.node
+            # free variables of a closure are names of the enclosing function: compared as globals (same name)
+            if u.u_block(kbody, nbody) and all(u.map.get(p, p) == p for p in u.kparams):
+                cands.append(d)
+        if len(cands) != 1:
+            continue
+        d = cands[0]
+        old = d.node.name
+        if any(isinstance(x, ast.Name) and x.id == name for x in ast.walk(outer.node)):
+            continue
+        for x in ast.walk(outer.node):
+            if isinstance(x, ast.Name) and x.id == old:
+                x.id = name
+        d.node.name = name
+        m.log.append(f"{outer_q}: nested function {old} is the reference closure {name} under a new name (bodies unify): name restored")
+        changed = True
+    if changed:
+        m.defs = enumerate_defs(m.modname, m.tree)
+        m.new = [d for d in m.defs if d.qual not in m.known]
